@@ -71,6 +71,43 @@ def estimator(rec, ctx):
     return viol
 
 
+def replay_grid(rec, ctx):
+    """history of set_active / parent / unparent calls on a real ToroidalVoxelGrid: totals and members never change."""
+    import numpy as np
+    from cherab.tools.inversions.voxels import ToroidalVoxelGrid
+    polys, vols = ctx["polys"], ctx["volumes_over_pi"]
+    h = rec["h"]
+    act = h[0]["active"]
+    grid = ToroidalVoxelGrid([np.array(p, float) for p in polys], active="all" if act == -1 else int(act))
+    viol = []
+    want_total = sum(vols) * math.pi
+    for e in h[1:]:
+        if e["op"] == "set_active":
+            grid.set_active(int(e["i"]))
+        elif e["op"] == "set_active_all":
+            grid.set_active("all")
+        elif e["op"] == "unparent_all":
+            grid.unparent_all_voxels()
+        elif e["op"] == "parent_all":
+            grid.parent_all_voxels()
+    last = h[-1]["op"]
+    if not core.close(grid.total_volume, want_total, rtol=1e-12):
+        viol.append({"sig": f"grid:{last}:total-volume-is-not-the-sum-of-voxel-volumes", "detail": f"{grid.total_volume!r} vs {want_total!r} after {json.dumps(h)}"})
+    if len(grid) != len(polys) or grid.count != len(polys) or len(list(grid)) != len(polys):
+        viol.append({"sig": f"grid:{last}:count-differs", "detail": json.dumps(h)})
+    att = sorted(i for i, vx in enumerate(grid) if vx.parent is grid)
+    if att != sorted(rec["attached"]):
+        viol.append({"sig": f"grid:{last}:attached-voxels-differ", "detail": f"{att} vs {sorted(rec['attached'])} after {json.dumps(h)}"})
+    return viol
+
+
+CFG_GRID = """SPECIFICATION Spec
+CONSTANTS
+  NVox = 3
+  MaxHist = {depth}
+INVARIANT MembersFixed
+ACTION_CONSTRAINT Emit
+"""
 CFG = """SPECIFICATION Spec
 INVARIANT AreaInvariant
 INVARIANT CentroidInvariant
@@ -97,6 +134,18 @@ def run(v):
     for r, vs in zip(canon, out):
         for x in vs:
             v.violation(x["sig"], x["detail"], dict(r, estimator=True))
+    # grid histories (VoxelGrid.tla): the totals do not depend on which voxels are attached
+    resg = core.run_tlc("VoxelGrid", CFG_GRID.format(depth=2 if v.tier == "quick" else 4), workers=1, seed=v.seed, tag="C17-grid", timeout=1800)
+    core.tlc_must_pass(resg, "VoxelGrid")
+    v.add_tlc(resg, "VoxelGrid")
+    gedges = [r for r in resg.records if "h" in r]
+    three = [r for r in cases if r["rot"] == 0 and not r["rev"]][:3]
+    ctxg = {"polys": [r["vertices"] for r in three], "volumes_over_pi": [float(_fr(r["volume_over_pi"])) for r in three]}
+    outg = core.fan_out("mbt.c17", "replay_grid", gedges, ctxg)
+    for r, vs in zip(gedges, outg):
+        for x in vs:
+            v.violation(x["sig"], x["detail"], dict(r, grid=True, **ctxg))
+    v.add_cases(len(gedges), keys=["grid" + json.dumps(r["h"]) for r in gedges])
     # grid total
     from cherab.tools.inversions.voxels import ToroidalVoxelGrid
     base = [r for r in cases if r["rot"] == 0 and not r["rev"]]
@@ -114,6 +163,8 @@ def run(v):
 
 
 def replay_any(rec, ctx):
+    if rec.get("grid"):
+        return replay_grid(rec, rec)
     return estimator(rec, {"n": 20000, "seed": 1000}) if rec.get("estimator") else replay(rec, None)
 
 
